@@ -452,7 +452,7 @@ template <typename T>
 bool swap(span<T> s, long p1, long p2)
 {
 	long len = s.size();
-	if (p1 > len || p2 > len) {
+	if (p1 < 0 || p2 < 0 || p1 >= len || p2 >= len) {
 		return false;
 	}
 	T *b = s.begin();
